@@ -155,7 +155,7 @@ Section Dec.
     (forall f x, In (f, x) (combine ffs fs) -> x = DNone -> dmulti f = true -> keep f x = false) ->
     freq_ok ffs (cnts keep ffs fs) = true.
   Proof.
-    intros fs Hfo Hm K1 K2. unfold freq_ok, freq_low, freq_high.
+    intros fs Hfo Hm K1 K2. unfold freq_ok, freq_low, freq_high, hier_counts_array_items.
     revert fs Hm K2. induction ffs as [|f r IH]; intros [|x s] Hm K2; cbn [mconf] in Hm; try discriminate;
       [reflexivity|].
     cbn [forallb] in Hfo. apply andb_true_iff in Hfo as [Hf Hfo].
